@@ -7,20 +7,21 @@ From Coq Require Import Permutation.
 
 (* ------------------------------------------------------------------ *)
 (* (a) every live file is reached by some entry point *)
-Lemma ldeps_sub_deps fl t : In t (f_ldeps fl) -> In t (f_deps fl).
+Lemma ldeps_sub_deps g fl t : In t (f_ldeps g fl) -> In t (f_deps g fl).
 Proof.
   unfold f_ldeps, f_deps, live_parts. intro H. apply in_flat_map in H as [p [Hp Ht]].
   apply filter_In in Hp as [Hp _]. apply in_flat_map. exists p. auto.
 Qed.
 
-Lemma live_succ_split g ents y z : In z (live_succ g y) -> z = y \/ In z (split_succ g ents y).
+Lemma live_succ_split g ents y z : In z (live_succ g ents y) -> z = y \/ In z (split_succ g ents y).
 Proof.
   unfold live_succ, split_succ. intro H. apply in_app_or in H as [H|H].
   - right. apply in_or_app. left. apply in_map_iff in H as [r [E Hr]]. apply filter_In in Hr as [Hr Hd].
     apply in_map_iff. exists r. split; [exact E|]. apply filter_In. split; [exact Hr|].
     unfold is_external_dynamic. apply negb_true_iff in Hd. rewrite Hd. reflexivity.
   - destruct (Nat.eq_dec z y) as [->|Hne]; [left; reflexivity | right].
-    apply in_or_app. right. apply filter_In. split; [apply ldeps_sub_deps; exact H|].
+    apply in_or_app. right. apply filter_In.
+    split; [apply in_app_or in H as [H|H]; apply in_or_app; [left; apply ldeps_sub_deps; exact H | right; exact H]|].
     apply negb_true_iff. apply Nat.eqb_neq. exact Hne.
 Qed.
 
@@ -31,12 +32,12 @@ Proof.
   unfold is_live in Hl. apply memn_In in Hl. rewrite LV in Hl.
   destruct (closure_sound _ _ _ _ _ f CL Hl) as [root [Hroot HP]].
   apply closure_spec in CL as [CC CR].
-  rewrite <- HE in Hroot. destruct (In_nth _ _ O Hroot) as [j [Hj Ej]].
+  rewrite <- HE in Hroot, CC, HP. destruct (In_nth _ _ O Hroot) as [j [Hj Ej]].
   exists j. split; [exact Hj|].
   apply (proj2 (bits_iff_reachable_lemma g a f j H Hj)). rewrite Ej.
   assert (Hrl : In root (map fst lv)) by (apply CR; [rewrite <- HE; exact Hroot | reflexivity]).
   (* transport the path, keeping "on the path => live" *)
-  assert (G : forall r0 x, path (live_succ g) (fun _ => true) r0 x -> In r0 (map fst lv) ->
+  assert (G : forall r0 x, path (live_succ g (a_entries a)) (fun _ => true) r0 x -> In r0 (map fst lv) ->
               path (split_succ g (a_entries a)) (is_live a) r0 x /\ In x (map fst lv)).
   { intros r0 x P. induction P as [x0|x0 y z P IH Hz Hok]; intro Hr0; [split; [apply path_refl | exact Hr0]|].
     destruct (IH Hr0) as [IH1 IH2].
@@ -56,11 +57,11 @@ Proof.
   - rewrite Ef. apply lfiles_In in Hf as [_ Hl]. eapply live_has_bit; eauto.
 Qed.
 
-Theorem entry_chunk_no_importers_all g r i j bit e : split g = Some r -> deps_cover g ->
+Theorem entry_chunk_no_importers_all g r i j bit e : split g = Some r ->
   let a := r_analysis r in
   sedge (r_cross r) i j -> c_entry (nth j (a_chunks a) dchunk) = Some (bit, e) -> False.
 Proof.
-  intros H HD a E HE. pose proof (split_inv _ _ H) as [A X].
+  intros H a E HE. pose proof (deps_cover_holds g) as HD. pose proof (split_inv _ _ H) as [A X].
   destruct (sedge_spec _ _ _ _ _ A X HD E) as [Hi _].
   eapply (entry_no_importers_lemma g (r_analysis r)); eauto.
   apply (chunk_bits_nonempty g); [exact A | apply nth_In; exact Hi].
